@@ -23,7 +23,10 @@ def plan(tier):
                  "values, errors, grid, metadata, cards, toy-PDF prediction) or — only if a failing fault fired in that "
                  "op — raise. non-trivial = a fault fired, or a loaded object was re-dumped, or a rename/scribble/"
                  "set_none/crash happened, or an empty observable was present; distinct = distinct sha256 of "
-                 "(output cards, ops, faults).",
+                 "(output cards, ops, faults). Thorough tier adds the enumerated part: for short base histories "
+                 "(dump, load, overwrite or cross-format re-dump, loads, fault-free dump+load) every raw I/O call index "
+                 "of every dump/load op × every applicable fault kind is executed once (extra.enum_*); each such case "
+                 "is distinct by construction and non-trivial if its fault fired.",
             assumptions=[
                 "cards contain only what a YAML run card can contain",
                 "no power-loss semantics (lost un-fsynced data, reordered metadata): yadism never fsyncs and the property "
@@ -39,8 +42,14 @@ def plan(tier):
         "jit_modes": [False],
         "params": params,
         "watchdog": 120,
-        "det_sample": 16 if quick else 300,
+        "det_sample": 16 if quick else max(16, _scale(300)),
         "det_rounds": [(12345, 2)] if quick else [(12345, 1), (999, 16)],
         "wall_cap": 900 if quick else 3 * 3600,
         "evidence": evidence,
+        # thorough: exhaustive single-fault enumeration (every raw I/O call index × every applicable
+        # fault kind of every dump/load op) over short sampled histories
+        "enum_runs": 0 if quick else _scale(480),
+        "enum_max_cases": 600,
+        "enum_watchdog": 3600,
+        "enum_wall_cap": 3 * 3600,
     }
